@@ -113,7 +113,13 @@ func (d *deferError) Error() error {
 	select {
 	case d.err = <-d.errCh:
 	case <-d.ShutdownCh:
-		d.err = ErrRaftShutdown
+		// Prefer a response that has already been delivered over the
+		// shutdown, so an operation that completed is reported as such.
+		select {
+		case d.err = <-d.errCh:
+		default:
+			d.err = ErrRaftShutdown
+		}
 	}
 	return d.err
 }
